@@ -196,6 +196,7 @@ typedef struct cult {
     int from;
     char *lo, *hi; /* observed stack bounds */
     int from_started; /* incarnation of the caller that handed control to me */
+    int slices, from_slices; /* how often I got control; the caller's count when it handed over */
     int away;      /* migrated out of the chain pool: not a target for ABT_thread_yield_to */
     int pool_idx;  /* pool the unit is (about to be) associated with */
     int from_migrated;
@@ -288,6 +289,7 @@ static void on_control(cult *me)
                   me->id);
         B.es_expect[rank] = -1;
     }
+    me->slices++;
     WL_DBG("[%lu] c%d has control on rank %d, from=%d expect=%d\n", (unsigned long)sim_steps(), me->id, rank, me->from, me->expect_caller_state);
     if (me->from >= 0) {
         SIM_CHECK(me->expect_rank == rank, "switch:wrong-stream", "target ULT %d runs on stream %d, the caller was on stream %d", me->id, rank, me->expect_rank);
@@ -304,7 +306,9 @@ static void on_control(cult *me)
             } else if (me->expect_caller_state == (int)ABT_THREAD_STATE_BLOCKED) {
                 /* in a shared pool somebody may already have resumed it on another stream */
                 SIM_CHECK(st == ABT_THREAD_STATE_BLOCKED || !B.priv || B.any_away, "switch:caller-state", "caller ULT %d should be BLOCKED after suspend_to, state %d", f->id, (int)st);
-            } else if (B.priv && !me->from_migrated && !f->away && rank == B.home_rank) {
+            } else if (B.priv && !me->from_migrated && !f->away && rank == B.home_rank && f->slices == me->from_slices) {
+                /* (a caller that was associated with another stream's pool while it ran here may
+                 * have been popped there and be running again: it has had control since) */
                 /* only this stream serves the pool, and it is busy running me */
                 SIM_CHECK(st == ABT_THREAD_STATE_READY, "switch:caller-state", "caller ULT %d should be READY in its pool after yielding to ULT %d, state %d", f->id, me->id,
                           (int)st);
@@ -468,6 +472,7 @@ static void chain_body(void *arg)
                                                                                                : (int)ABT_THREAD_STATE_READY;
             tg->from = me->id;
             tg->from_started = me->started;
+            tg->from_slices = me->slices;
             tg->from_migrated = migrating;
             tg->expect_caller_state = caller_after;
             tg->expect_rank = rank;
